@@ -23,7 +23,7 @@ PROP = 'C02'
 LEAN_MODULES = ['Femio.Props.C02']
 THEOREMS = ['C02_parse_render', 'C02_split_point', 'C02_split_point_nodal_only', 'C02_columns', 'C02_rebinding',
             'C02_rebinding_ids', 'C02_steps', 'C02_steps_latest', 'C02_step_of_name', 'C02_timeseries_is_stack',
-            'C02_timeseries_by_id', 'C02_latest_is_single', 'C02_header_constants',
+            'C02_stack_spec', 'C02_timeseries_by_id', 'C02_latest_is_single', 'C02_header_constants',
             'C02_singleton_series_counterexample_upstream']
 PARTIAL = [
     'C02_parse_render: token level (lines are lists of typed tokens); the character-level lexer / printer of the driver '
